@@ -26,7 +26,7 @@ from pyvc.api import *
 from pyvc.api import PROTOCOLS
 from pyvc.values import cur, is_none, mk_bool, mk_int
 from contracts.proto_widget import *
-from contracts.C08_listbox import FILL, LBX, WALKER, WIDGET, walker_focus
+from contracts.C08_listbox import FILL, LBX, WALKER, WIDGET, lb_ok, walker_focus
 
 from urwid.widget import listbox as _lbmod
 
@@ -49,11 +49,12 @@ LB = Obj(
 )
 
 
-def lb_ok(s):
-    """Class invariant of the scroll state (established by __init__ and by every shift_focus): the focus widget sits
-    `offset_rows >= 0` rows below the top, or has the fraction 0 <= inum/iden < 1 of its rows cut off at the top."""
-    inum, iden = s.inset_fraction
-    return both(s.offset_rows >= 0, 0 <= inum, inum < iden)
+def no_change_pending(s):
+    """`set_focus_pending` and `set_focus_valign_pending` are both None (a formula; never forks)."""
+    out = []
+    for p in (s.set_focus_pending, s.set_focus_valign_pending):
+        out.append(True if p is None else (mk_bool(p.isnone) if isinstance(p, V.SOpt) else False))
+    return both(*out)
 
 
 def focus_widget(s, when="now"):
@@ -134,11 +135,14 @@ class Chain:
         self.key = (z3.IntVal(self.ver), V._z(maxcol))
         g = P.uf_value(st, "get_focus", self.walker, [], P.methods["get_focus"].result, self.ver)
         self.focus_widget, self.focus_pos = val(g[0]), g[1]
-        for d in (UP, DOWN):
-            st.assume(_OK(*self.key, z3.IntVal(d), z3.IntVal(0)))
-            st.assume(_POS(*self.key, z3.IntVal(d), z3.IntVal(0)) == V._z(self.focus_pos))
-            st.assume(_W(*self.key, z3.IntVal(d), z3.IntVal(0)) == self.focus_widget.e)
-            st.assume(_R(*self.key, z3.IntVal(d), z3.IntVal(0)) == 0)
+        # the axioms already instantiated on this path (z3 terms are hash-consed: get_id() identifies the index term)
+        self.done = st.ghost.setdefault("lbchain_done", set())
+        base = ("base", self.ver, self.key[1].get_id())
+        if base not in self.done:
+            self.done.add(base)
+            for d in (UP, DOWN):
+                st.assume(z3.And(_OK(*self.key, z3.IntVal(d), z3.IntVal(0)), _POS(*self.key, z3.IntVal(d), z3.IntVal(0)) == V._z(self.focus_pos),
+                                 _W(*self.key, z3.IntVal(d), z3.IntVal(0)) == self.focus_widget.e, _R(*self.key, z3.IntVal(d), z3.IntVal(0)) == 0))
 
     def _a(self, d, k):
         return (*self.key, z3.IntVal(d), V._z(k))
@@ -167,6 +171,10 @@ class Chain:
     def unfold(self, d, k):
         """Definitional axioms at step k (for k >= 0): chain(d, k+1) from chain(d, k)."""
         st = cur()
+        inst = (self.ver, self.key[1].get_id(), d, V._z(k).get_id())
+        if inst in self.done:
+            return
+        self.done.add(inst)
         g = self.neighbour(d, self.pos(d, k))
         there = both(self.ok(d, k), neg(mk_bool(g[0].isnone)))
         w = val(g[0])
@@ -303,7 +311,7 @@ class lb_calculate_visible:
 
     def requires(s, a):
         # no focus change pending (step 0), a list that is not empty, a sane scroll state
-        return both(nonempty(s), size_ok(a.size), lb_ok(s))
+        return both(no_change_pending(s), nonempty(s), size_ok(a.size), lb_ok(s))
 
     loops = {
         0: Loop(invariant=_cv_loop_above, counter=True, shapes={"fill_above": FILL}),
